@@ -247,6 +247,15 @@ func BrokerStress(rate, npub, nsub, n int, rng *rand.Rand, label string) ([]*cor
 			r := rand.New(rand.NewSource(seed))
 			for i := 1; i <= n; i++ {
 				pad := strings.Repeat(string(rune('a'+w)), sizes[r.Intn(len(sizes))])
+				if i%9 == 4 {
+					// delivered packets whose remaining length sits on the 1/2/3-byte boundaries of the length encoding
+					// (127, 128, 16383, 16384): remaining length = 2 + len("stress/x/") + len(payload)
+					target := []int{127, 128, 16383, 16384, 129, 16385}[(i/9+w)%6]
+					head := fmt.Sprintf("w%d|%d|", w+1, i)
+					if n := target - 2 - len("stress/x/") - len(head); n >= 0 {
+						pad = strings.Repeat(string(rune('a'+w)), n)
+					}
+				}
 				pubs[w].write(rawPublish(topic, []byte(fmt.Sprintf("w%d|%d|%s", w+1, i, pad))))
 				if r.Intn(8) == 0 {
 					time.Sleep(time.Duration(r.Intn(60)) * time.Microsecond)
